@@ -55,7 +55,7 @@ contract('PipeRelay._exec_process', module=M, props=['C11', 'C14'],
          raises={'Timeout': [], 'OSError': []},
          modifies=['fresh'])
 
-contract('PipeRelay._try_pipe_all_rcpts', module=M, props=['C11', 'C01', 'C14'],
+contract('PipeRelay._try_pipe_all_rcpts', module=M, props=['C11', 'C01', 'C14'], scope_timeouts=['self.timeout'],
          params={'self': 'PipeRelay', 'envelope': 'Envelope'}, returns='Dict[Str, PipeResult]',
          requires=['envelope != None', 'envelope.recipients != None', 'self._permanent_error_pattern != None'],
          ensures=['result != None',
@@ -80,7 +80,7 @@ contract('PipeRelay._try_pipe_all_rcpts', module=M, props=['C11', 'C01', 'C14'],
                              'forall(dict_keys(results), lambda r: implies(dict_get(results, r) is not None, '
                              '       cast(dict_get(results, r), RelayError).reply != None))'])})
 
-contract('PipeRelay._try_pipe_one_rcpt', module=M, props=['C11', 'C01', 'C14'],
+contract('PipeRelay._try_pipe_one_rcpt', module=M, props=['C11', 'C01', 'C14'], scope_timeouts=['self.timeout'],
          params={'self': 'PipeRelay', 'envelope': 'Envelope'}, returns='PipeResult',
          requires=['envelope != None', 'envelope.recipients != None', 'len(envelope.recipients) >= 1',
                    'self._permanent_error_pattern != None'],
